@@ -41,16 +41,28 @@ Int64Kinds == {"i64", "u64", "long", "ulong"}       \* long long / LP64 long
 FloatKinds == {"f32", "f64"}
 StrKinds   == {"cstr", "string"}
 ObjKinds   == {"objPtr", "objRef", "objVal", "constObjRef"}       \* all refer to K0
-ScalarKinds == Int32Kinds \cup Int64Kinds \cup FloatKinds \cup {"bool", "enum"} \cup StrKinds
-ParamKinds == ScalarKinds \cup ObjKinds
-RetKinds   == ParamKinds \cup {"void"}
-DataKinds  == (ScalarKinds \ {"cstr"}) \cup {"objPtr"}            \* published data members of K0
+\* scoped enumerations with an explicit underlying type: enum class EnC : char, enum class EnL : long long
+ScopedEnumKinds == {"enumC", "enumLL"}
+ScalarKinds == Int32Kinds \cup Int64Kinds \cup FloatKinds \cup {"bool", "enum"} \cup ScopedEnumKinds \cup StrKinds
+\* strPtr: const std::string * (a parameter only; never null)
+ParamKinds == ScalarKinds \cup ObjKinds \cup {"strPtr"}
+RetKinds   == ScalarKinds \cup ObjKinds \cup {"void"}
+\* published data members of K0.  Array members: int[3], float[2] (a setter wrapper only: a pointer to a
+\* simple type cannot be returned) and an array of two objects (a getter only: arrays are not assignable)
+ArrKinds   == {"arrI32", "arrF32"}
+DataKinds  == (ScalarKinds \ {"cstr"}) \cup {"objPtr"}
+GetKinds   == DataKinds \cup {"arrObj"}
+SetKinds   == DataKinds \cup ArrKinds
 
 KindSeq == <<"i8", "u8", "i16", "u16", "i32", "u32", "i64", "u64", "long", "ulong", "f32", "f64",
-             "bool", "enum", "cstr", "string", "objPtr", "objRef", "objVal", "constObjRef", "void">>
+             "bool", "enum", "cstr", "string", "objPtr", "objRef", "objVal", "constObjRef", "void",
+             "enumC", "enumLL", "strPtr", "arrI32", "arrF32", "arrObj">>
 KindIdx(k) == CHOOSE i \in 1..Len(KindSeq) : KindSeq[i] = k
 
 EnumVals == <<0, 5, 70000>>       \* enum En { e0, e1 = 5, e2 = 70000 }
+EnumCVals == <<-3, 0, 100>>       \* enum class EnC : char { c0 = -3, c1 = 0, c2 = 100 }
+\* enum class EnL : long long { l0 = 0, l1 = 5000000000, l2 = -5000000000 }   (as <<hi, lo>> word patterns)
+EnumLVals == <<<<0, 0>>, <<1, 705032704>>, <<-2, -705032704>>>>
 Str(t) == [t |-> t, n |-> -1]
 NStrings == 6                     \* "", "a b", 200 bytes, quote and backslash, UTF-8 multibyte, "a b\0tail"
 NCStrings == 5                    \* entries a C string can be
@@ -74,6 +86,11 @@ Bnd(k) ==
     [] k = "f64"  -> <<0, 1, -1, 16777217, -16777217, MaxInt, MinInt>>   \* 2^24+1 is not a float
     [] k = "bool" -> <<0, 1>>
     [] k = "enum" -> EnumVals
+    [] k = "enumC" -> EnumCVals
+    [] k = "enumLL" -> EnumLVals
+    [] k = "strPtr" -> <<Str(0), Str(1), Str(2), Str(3), Str(4), Str(5)>>
+    [] k = "arrI32" -> <<<<10, 20, 30>>, <<MinInt, MaxInt, -1>>, <<0, 0, 0>>>>
+    [] k = "arrF32" -> <<<<1, -1>>, <<16777215, -16777215>>, <<0, 12>>>>
     [] k = "cstr" -> <<Str(0), Str(1), Str(2), Str(3), Str(4)>>
     [] k = "string" -> <<Str(0), Str(1), Str(2), Str(3), Str(4), Str(5)>>
 
@@ -87,6 +104,9 @@ InRange(k, v) ==
     [] k = "f32"  -> v > -16777216 /\ v < 16777216
     [] k = "bool" -> v \in {0, 1}
     [] k = "enum" -> \E i \in 1..Len(EnumVals) : EnumVals[i] = v
+    [] k = "enumC" -> \E i \in 1..Len(EnumCVals) : EnumCVals[i] = v
+    [] k = "enumLL" -> \E i \in 1..Len(EnumLVals) : EnumLVals[i] = v
+    [] k = "arrObj" -> v \in Int
     [] k = "cstr" -> v.t \in 0..(NCStrings - 1) /\ v.n >= -1 /\ v.n < 100000
     [] k = "string" -> v.t \in 0..(NStrings - 1) /\ v.n >= -1 /\ v.n < 100000
     [] k \in ObjKinds -> v >= 0
@@ -107,6 +127,8 @@ DefVal(k, i) ==
     [] k = "f64"  -> 16777217 + i
     [] k = "bool" -> i % 2
     [] k = "enum" -> 5
+    [] k = "enumC" -> 100
+    [] k = "enumLL" -> <<1, 705032704>>
     [] k \in StrKinds -> Str(1)
     [] k = "objPtr" -> 0
 
@@ -117,8 +139,13 @@ InitData(k) ==
     [] k \in FloatKinds -> 12
     [] k = "bool" -> 1
     [] k = "enum" -> 5
+    [] k = "enumC" -> 0
+    [] k = "enumLL" -> <<0, 0>>
     [] k = "string" -> Str(1)
     [] k = "objPtr" -> 0
+    [] k = "arrI32" -> <<1, 2, 3>>
+    [] k = "arrF32" -> <<12, 20>>
+    [] k = "arrObj" -> 7              \* what element 0 of the object array shows
 
 ---------------------------------------------------------------------------
 (* Classes *)
@@ -133,20 +160,23 @@ HasKB(c) == c \in {"KB", "Mix"}
 ---------------------------------------------------------------------------
 (* Signatures *)
 FkSeq == <<"free", "method", "cmethod", "static", "ctor", "getter", "setter",
-           "opIndex", "opCall", "opAsg", "opCast", "opEq">>
+           "opIndex", "opCall", "opAsg", "opCast", "opEq", "opIndexRef">>
 FkIdx(f) == CHOOSE i \in 1..Len(FkSeq) : FkSeq[i] = f
 HasThis(s) == s.fk \notin {"free", "static", "ctor"}
 ConstThis(s) == s.fk \in {"cmethod", "getter", "opIndex", "opCast", "opEq"}
 NP(s) == Len(s.ps)
+(* opIndexRef:  int &operator [](K i)  is exported as the item-assignment wrapper  operator []=(K i, const int &
+   assign_val): the signature carries the wrapper's two parameters, the C++ declaration has the first. *)
+DeclNP(s) == IF s.fk = "opIndexRef" THEN 1 ELSE NP(s)
 
 Sig(fk, cls, name, ret, ps, nd) == [fk |-> fk, cls |-> cls, name |-> name, ret |-> ret, ps |-> ps, nd |-> nd]
 \* every class always has this constructor; it is how objects come into being
 BaseCtor(c) == Sig("ctor", c, 0, "void", <<"i32">>, 0)
 
 PIdx(s, i) == IF i <= NP(s) THEN KindIdx(s.ps[i]) ELSE 0
-\* a perfect hash of the signature's content (mixed radix), < 2^27
-SigId(s) == ((((((FkIdx(s.fk) - 1) * 7 + (ClsIdx(s.cls) - 1)) * 21 + (KindIdx(s.ret) - 1)) * 21 + PIdx(s, 1)) * 21
-               + PIdx(s, 2)) * 21 + PIdx(s, 3)) * 4 + s.nd
+\* a perfect hash of the signature's content (mixed radix), < 2^28
+SigId(s) == ((((((FkIdx(s.fk) - 1) * 7 + (ClsIdx(s.cls) - 1)) * 28 + (KindIdx(s.ret) - 1)) * 28 + PIdx(s, 1)) * 28
+               + PIdx(s, 2)) * 28 + PIdx(s, 3)) * 4 + s.nd
 
 RECURSIVE TrailingDefaultable(_)
 TrailingDefaultable(ps) ==
@@ -159,8 +189,10 @@ ThisIsCand(s) == HasThis(s) /\ HasK0(s.cls) /\ (s.ret = "constObjRef" \/ ~ConstT
 CandParams(s) == IF s.ret = "constObjRef" THEN CRefParams(s) ELSE RefParams(s)
 
 WellFormedSig(s) ==
-  /\ s.fk \in {FkSeq[i] : i \in 1..Len(FkSeq)} /\ s.ret \in RetKinds
-  /\ \A i \in 1..NP(s) : s.ps[i] \in ParamKinds
+  /\ s.fk \in {FkSeq[i] : i \in 1..Len(FkSeq)} /\ s.ret \in RetKinds \cup {"arrObj"}
+  /\ (s.ret = "arrObj" => s.fk = "getter")
+  /\ \A i \in 1..NP(s) : s.ps[i] \in ParamKinds \cup ArrKinds
+  /\ (\E i \in 1..NP(s) : s.ps[i] \in ArrKinds) => s.fk = "setter"
   /\ NP(s) <= 3 /\ s.nd \in 0..3 /\ s.nd <= TrailingDefaultable(s.ps)
   /\ (s.fk = "free") = (s.cls = "-")
   /\ s.cls \in Classes \cup {"-"}
@@ -168,10 +200,14 @@ WellFormedSig(s) ==
             /\ s.ret = "void"
             \* K0(K0) / K0(const K0&) / K0(K0&) would be (or collide with) the copy constructor
             /\ ~(s.cls = "K0" /\ NP(s) - s.nd <= 1 /\ NP(s) >= 1 /\ s.ps[1] \in {"objRef", "objVal", "constObjRef"})
-       [] s.fk = "getter" -> s.ps = <<>> /\ s.ret \in DataKinds /\ s.cls = "K0" /\ s.name = 0
-       [] s.fk = "setter" -> NP(s) = 1 /\ s.ps[1] \in DataKinds /\ s.ret = "void" /\ s.nd = 0 /\ s.cls = "K0" /\ s.name = 0
+       [] s.fk = "getter" -> s.ps = <<>> /\ s.ret \in GetKinds /\ s.cls = "K0" /\ s.name = 0
+       [] s.fk = "setter" -> NP(s) = 1 /\ s.ps[1] \in SetKinds /\ s.ret = "void" /\ s.nd = 0 /\ s.cls = "K0" /\ s.name = 0
        [] s.fk = "opIndex" -> NP(s) = 1 /\ s.nd = 0 /\ s.ret # "void"
-       [] s.fk = "opAsg" -> NP(s) = 1 /\ s.nd = 0 /\ s.ret = "objRef" /\ HasK0(s.cls)
+       \* compound assignment: returning *this (objRef), or something else (operator -= returning int,
+       \* operator *= returning an object by value)
+       [] s.fk = "opAsg" -> NP(s) = 1 /\ s.nd = 0 /\ s.ret \in {"objRef", "i32", "objVal"} /\ HasK0(s.cls)
+       [] s.fk = "opIndexRef" -> NP(s) = 2 /\ s.ps[1] \in {"i32", "u8", "i64", "enumC"} /\ s.ps[2] = "i32" /\ s.nd = 0
+                                  /\ s.ret = "void" /\ s.name = 0
        [] s.fk = "opCast" -> s.ps = <<>> /\ s.ret \in ScalarKinds \ {"cstr"}
        [] s.fk = "opEq" -> s.ps = <<"constObjRef">> /\ s.nd = 0 /\ s.ret = "bool"
        [] OTHER -> TRUE
@@ -180,18 +216,21 @@ WellFormedSig(s) ==
 (* the C++ overload-resolution class of a parameter kind: a by-value, reference and
    const-reference parameter of the same class are mutually ambiguous *)
 CallType(k) == IF k \in {"objRef", "objVal", "constObjRef"} THEN "obj" ELSE k
-CallSig(s, k) == [i \in 1..(NP(s) - k) |-> CallType(s.ps[i])]
+CallSig(s, k) == [i \in 1..(DeclNP(s) - k) |-> CallType(s.ps[i])]
 CallSigs(s) == {CallSig(s, k) : k \in 0..s.nd}
 \* Overloads whose wrappers have the same parameter TYPES in the database (a K0 pointer and a K0 by value,
 \* a C string and a std::string) are told apart by the parameter NAMES the database records: the renderer
 \* names every parameter after its position and kind.
 
 \* two signatures that would be declared under one C++ name in one scope
-OpName(s) == IF s.fk \in {"opIndex", "opCall", "opAsg", "opEq", "ctor"} THEN s.fk
-             ELSE IF s.fk = "opCast" THEN s.ret ELSE "f"
+IsOperator(s) == s.fk \in {"opIndex", "opIndexRef", "opCall", "opAsg", "opEq", "ctor", "opCast"}
+OpGroup(s) == CASE s.fk \in {"opIndex", "opIndexRef"} -> "index"
+                [] s.fk = "opAsg" -> (CASE s.ret = "objRef" -> "asg+=" [] s.ret = "i32" -> "asg-=" [] OTHER -> "asg*=")
+                [] s.fk = "opCast" -> s.ret
+                [] OTHER -> s.fk
 SameName(a, b) ==
   /\ a.cls = b.cls
-  /\ \/ a.fk \in {"opIndex", "opCall", "opAsg", "opEq", "ctor", "opCast"} /\ OpName(a) = OpName(b)
+  /\ \/ IsOperator(a) /\ IsOperator(b) /\ (a.fk = "opCast") = (b.fk = "opCast") /\ OpGroup(a) = OpGroup(b)
      \/ a.fk \in {"free", "method", "cmethod", "static"} /\ b.fk \in {"free", "method", "cmethod", "static"}
         /\ a.name # 0 /\ a.name = b.name
 \* what the header must satisfy to be valid C++ whose every variant call is unambiguous
@@ -202,7 +241,7 @@ Compatible(a, b) ==
     /\ a.fk # "opCast"                                    \* one conversion function per target type
     \* a static and a non-static member function cannot be overloaded on the same parameter list; keep the
     \* flavours of one name equal except for method / const method
-    /\ (a.fk = b.fk \/ {a.fk, b.fk} = {"method", "cmethod"})
+    /\ (a.fk = b.fk \/ {a.fk, b.fk} = {"method", "cmethod"} \/ {a.fk, b.fk} = {"opIndex", "opIndexRef"})
 HeaderOK(lib) ==
   /\ \A a \in lib : WellFormedSig(a)
   /\ \A a \in lib : \A b \in lib : a # b => Compatible(a, b) /\ SigId(a) # SigId(b)
@@ -229,7 +268,9 @@ H(k, v, heap) ==
   CASE k \in Int32Kinds \cup FloatKinds \cup {"enum"} -> H32(v)
     [] k \in Int64Kinds -> H64(v)
     [] k = "bool" -> v + 1
-    [] k \in StrKinds -> (v.t + 1) * 101 + (IF v.n >= 0 THEN v.n + 1 ELSE 0)
+    [] k = "enumC" -> H32(v)
+    [] k = "enumLL" -> H64(v)
+    [] k \in StrKinds \cup {"strPtr"} -> (v.t + 1) * 101 + (IF v.n >= 0 THEN v.n + 1 ELSE 0)
     [] k \in ObjKinds -> K0St(heap, v)
 
 Primes == <<101, 211, 307>>
@@ -256,6 +297,8 @@ Encode(k, m, cands) ==
     [] k = "f32"  -> BndOr(k, m, (m % 16777216) - 8388608)
     [] k = "bool" -> m % 2
     [] k = "enum" -> EnumVals[(m % 3) + 1]
+    [] k = "enumC" -> EnumCVals[(m % 3) + 1]
+    [] k = "enumLL" -> EnumLVals[(m % 3) + 1]
     [] k = "cstr" -> [t |-> m % NCStrings, n |-> m % 100000]
     [] k = "string" -> [t |-> m % NStrings, n |-> m % 100000]
     [] k = "objPtr" -> IF m % 5 = 0 THEN 0 ELSE cands[(m % Len(cands)) + 1]
@@ -283,7 +326,7 @@ NewObj(c, m) == [cls |-> c, live |-> TRUE,
                  st |-> IF HasK0(c) THEN m % StMod ELSE 0,
                  tg |-> IF HasK0(c) THEN (m \div 7) % TgMod ELSE 0,
                  bst |-> IF HasKB(c) THEN (m \div StMod) % StMod ELSE 0,
-                 d |-> [k \in DataKinds |-> InitData(k)]]
+                 d |-> [k \in GetKinds \cup SetKinds |-> InitData(k)]]
 
 (* Sem of an ordinary (Mix-computing) function: result record
      [m, ret, heap']   where ret is the encoded value (for objVal: the state of the new object) *)
@@ -300,7 +343,7 @@ Sem(s, o, args, heap) ==
       cs == NonNull(CandSeq(s, o, args))
       h1 == IF HasThis(s) /\ ~ConstThis(s) THEN [heap EXCEPT ![o] = Bump(s.cls, @, w)] ELSE heap
       h2 == TouchArgs(s.ps, args, h1, 1)
-  IN [m |-> m, ret |-> IF s.fk = "opAsg" THEN o                \* assignment operators return *this
+  IN [m |-> m, ret |-> IF s.fk = "opAsg" /\ s.ret = "objRef" THEN o        \* return *this
                        ELSE IF cs = <<>> /\ s.ret \in {"objPtr", "objRef", "constObjRef"} THEN 0
                        ELSE Encode(s.ret, m, cs),
       heap |-> h2]
